@@ -89,7 +89,25 @@ Section C13.
   Proof. intros r2 H2. exact (dummy_to_real_rename r r2 r_inj H2). Qed.
 End C13.
 
+(* A whole entry point: xgcm.padding.pad on a grid without face connections.  For every
+   grid, array, widths, boundary / fill arguments (scalar or per-axis mappings) and every
+   pair of injective renamings of the axes (ra) and of the dimensions (r): padding the
+   renamed array on the renamed grid with the renamed arguments raises the same exception,
+   or returns an array with the renamed dimensions holding the same number at every point. *)
+Theorem C13_pad : forall (r ra : string -> string), injective r -> injective ra ->
+  forall {A} (dflt : A) (g : grid A) (t : tensor A) bw boundary fill,
+  respects t ->
+  match pad dflt (rename_grid r ra g) (rename_tensor r t) (option_map (rename_widths ra) bw)
+            (rename_kw ra boundary) (rename_kw ra fill),
+        pad dflt g t bw boundary fill with
+  | Ok t1, Ok t2 => teq t1 (rename_tensor r t2)
+  | Err e1, Err e2 => e1 = e2
+  | _, _ => False
+  end.
+Proof. intros r ra Hr Hra A dflt. exact (pad_rename r ra Hr Hra dflt). Qed.
+
 Print Assumptions C13_no_name_inspection.
+Print Assumptions C13_pad.
 Print Assumptions C13_lookup.
 Print Assumptions C13_first_appearance.
 Print Assumptions C13_axis_lookup.
